@@ -13,4 +13,4 @@ CONSTANTS
   SelSws = {"9000", "6A82", "6283", "6982"}
   Slack = {0, 7}
 SPECIFICATION Spec
-INVARIANTS Exact NotFound Bounded
+INVARIANTS Exact NotFound Bounded LoopInv
